@@ -315,6 +315,9 @@ EvZHdr ==
          win == Pow2((e.cmf \div 16) + 8)
          fails ==
               Iff("zlib_header_accepted_iff_valid", (e.flat = "Done") = ok /\ (~ok => e.flat = "Failed"))
+           \* ignoring the checksum (the Adler-32 trailer) does not relax any rule on the header
+           \o Iff("zlib_header_rules_hold_when_the_checksum_is_ignored",
+                  HasF(e, "flat_ign") => (e.flat_ign = "Done") = ok /\ (~ok => e.flat_ign = "Failed"))
            \o Iff("ring_smaller_than_declared_window_refused",
                   \A i \in 1..Len(e.rings) :
                      (e.rings[i][2] = "Done") = (ok /\ win <= e.rings[i][1]) /\ e.rings[i][2] \in {"Done", "Failed"})
